@@ -682,9 +682,16 @@ Proof.
   intros Hwf H. unfold holds_C05.
   pose proof (run_request_refines_ledger (ac_req c) (ac_resps c) Hwf) as Hl.
   destruct (snd (run_request (ac_req c) (ac_resps c))) as [s|e] eqn:Hrun.
-  - destruct H as [He Hu]. destruct Hl as [_ [Hself _]]. rewrite req_created_eq, Hself, He. cbn [implb andb].
+  - destruct H as [He Hu]. destruct Hl as [_ [Hself _]]. rewrite req_created_eq, Hself, He. cbn [implb andb orb Nat.eqb].
     rewrite (updates_exact_eq _ _ _ Hwf Hrun), Hu. apply updates_obs_eqb_refl.
-  - rewrite H. destruct e; cbn [err_class Nat.eqb negb]; rewrite implb_true_r; reflexivity.
+  - rewrite H.
+    assert (Hne : Nat.eqb (err_class e) 0 = false) by (destruct e; reflexivity).
+    rewrite Hne. cbn [negb]. rewrite implb_true_r. cbn [andb].
+    rewrite <- req_created_eq in Hl.
+    unfold spec_updates. unfold abs_conflict in Hl.
+    destruct (abs_run (all_groups (created_of (ac_req c)) (ac_resps c)) [] []) as [[oa fl]|]; [|reflexivity].
+    destruct Hl as [Hl|Hl]; [discriminate|]. rewrite Hl. cbn [orb andb].
+    destruct (own_of (ac_req c)) as [[id req]|]; destruct (err_class e); try reflexivity; destruct e; discriminate.
 Qed.
 
 (* (iii) copy-then-commit: an ignore-failure update whose claims are refused does not fail the
